@@ -205,7 +205,7 @@ CLAIMED = {
              "defect found, replayed, repaired in b3f2eba). In-line typeof: Parser.parse_type_and_quals on the shapes pycparser "
              "returns (empty text, type name, unknown identifier; with and without macros) and the refusal of a bare "
              "'...' for nodes with and without coordinates, and the creation of a struct / union / enum with '...' as its tag "
-             "(four more defects found, replayed, repaired: 5aa363e, 780523a, 631c6ee, c7f5649). The '#define' literal path is covered by a labelled bounded "
+             "and Parser._declare on names made with '...' (five more defects found, replayed, repaired: 5aa363e, 780523a, 631c6ee, c7f5649, f6ddf8c). The '#define' literal path is covered by a labelled bounded "
              "stand-in on the real code (all values up to length 4/5 over a 14-letter alphabet).",
         design_ref='DESIGN.md section 4 C30',
         note="Trusted: z3; vf/pyexec.py, vf/cexec.py. Not decided: pycparser, the regex preprocessing, the rest of "
